@@ -1060,6 +1060,42 @@ func (x *exec) refinementCheck(st *State, u *Unit, rets []Value) {
 func (x *exec) census(u *Unit, c *spec.Census) {
 	e := x.e
 	w := e.w
+	if c.Shape != "" {
+		fk := x.resolveCalleeName(u.Spec.Pkg, c.Shape)
+		fn := w.funcByKey[fk]
+		var missing []string
+		if fn == nil || fn.Blocks == nil {
+			missing = append(missing, "the function itself")
+		} else {
+			called := map[string]bool{}
+			var walk func(f *ssa.Function)
+			walk = func(f *ssa.Function) {
+				for _, b := range f.Blocks {
+					for _, ins := range b.Instrs {
+						if ci, ok := ins.(ssa.CallInstruction); ok {
+							called[staticKeyOf(ci.Common())] = true
+						}
+					}
+				}
+				for _, a := range f.AnonFuncs {
+					walk(a)
+				}
+			}
+			walk(fn)
+			for _, g := range c.Writers {
+				if !called[x.resolveCalleeName(u.Spec.Pkg, g)] {
+					missing = append(missing, g)
+				}
+			}
+		}
+		text := c.Shape + " calls " + strings.Join(c.Writers, ", ")
+		if len(missing) > 0 {
+			text += "   [no longer calls: " + strings.Join(missing, ", ") + "]"
+		}
+		e.obls = append(e.obls, &Obligation{Unit: u.Name, Name: u.Name + "/shape:" + c.Shape, Kind: "census", Tag: c.Tag, Text: text, Pos: c.Pos.String(),
+			PC: u.entry.pc[:len(u.entry.pc):len(u.entry.pc)], Goal: smt.BoolLit(len(missing) == 0)})
+		return
+	}
 	allowed := map[string]bool{}
 	for _, wr := range c.Writers {
 		allowed[x.resolveCalleeName(u.Spec.Pkg, wr)] = true
